@@ -83,6 +83,13 @@ def export(rep, prog):
                     elem = _second(var) if base.endswith('.items()') else var
                     rep.check(_one_packet(body, '%s.__bytearray__()' % elem), 'C14.1', 'PGPKey.__bytearray__', 'subkey block %s' % btxt,
                               'subkeys are exported through the same method (packet, then its signatures)', where=f.where)
+                elif base in ('%s._children' % me, '%s.subkeys' % me, '%s._children.keys()' % me):
+                    # a mapping iterates its keys
+                    kinds.append('SUBKEYS')
+                    unfiltered.append(('subkeys', conds))
+                    rep.check(_one_packet(body, '%s._children[%s].__bytearray__()' % (me, var)) or _one_packet(body, '%s.subkeys[%s].__bytearray__()' % (me, var)),
+                              'C14.1', 'PGPKey.__bytearray__', 'subkey block %s' % btxt,
+                              'subkeys are exported through the same method (packet, then its signatures)', where=f.where)
                 elif base == '%s._signatures' % me and _one_packet(body, '%s.__bytearray__()' % var):
                     kinds.append('KEYSIGS')
                     sites.append((var, conds, True, coll))
@@ -414,7 +421,7 @@ def grouper(rep, prog, f, keytext):
               '(the key is unique per head packet and is kept for the signatures that follow)', where=where)
 
 
-def _copy_loops(recs, me, root):
+def _copy_loops(recs, me, root, mappings=()):
     """{attribute of the original: (elements copied into `root` on every iteration?, skeleton of the condition under which an
     element is left out, description)} for the summarised loops over `me.<attr>[.items()|.values()]`."""
     out = {}
@@ -422,7 +429,7 @@ def _copy_loops(recs, me, root):
         mc = re.match(r'^(?:itertools\.)?chain\((.*)\)$', r.coll)
         colls = _split_args(mc.group(1)) if mc else [r.coll]
         for coll in colls:
-            _copy_loop(out, r, coll, me, root, len(colls) > 1)
+            _copy_loop(out, r, coll, me, root, len(colls) > 1, mappings)
     return out
 
 
@@ -443,14 +450,17 @@ def _split_args(text):
     return out
 
 
-def _copy_loop(out, r, coll, me, root, chained):
+def _copy_loop(out, r, coll, me, root, chained, mappings):
     m = re.match(r'^%s\.(\w+)(\.items\(\)|\.values\(\))?$' % re.escape(me), coll)
     if m is None:
         return
     elem = _second(r.var) if m.group(2) == '.items()' and not chained else r.var if m.group(2) != '.items()' and not r.var.startswith('(') else None
     if elem is None:
         return
-    want = ['copy.copy(%s)' % elem] + (['copy.copy(%s[%s])' % (coll, r.var)] if m.group(2) is None else [])     # a mapping iterates its keys
+    if m.group(2) is None and m.group(1) in mappings:
+        want = ['copy.copy(%s[%s])' % (coll, r.var)]            # a mapping iterates its keys
+    else:
+        want = ['copy.copy(%s)' % elem]
     copying = [p for p in r.paths if any(_root(t) == root and v in want for t, v in _attach_events(p[2]))]
     others = [p for p in r.paths if p not in copying]
     clean = all(len(_attach_events(p[2])) == 1 and p[0] in ('normal', 'continue') for p in copying) and \
@@ -475,6 +485,12 @@ def copies(rep, prog):
     rep.saw(fn=f)
     me = f.params[0]
     outs, recs = observe(prog, f)
+    ini = K.methods['__init__']
+    mappings = set()
+    for s in Interp(prog, Scenario(inline=noinline)).run(ini):
+        for pth, v, l, _ in s.stores:
+            if pth.startswith(ini.params[0] + '.') and re.search(r'(\bdict|Dict)\(|^\{', v):
+                mappings.add(pth[len(ini.params[0]) + 1:])
     for s in outs:
         root = _fresh_copy_root(s, 'PGPKey')
         base_copy = [c for c in s.calls if c[0] in ('super:Armorable.__copy__', 'Armorable.__copy__')]
@@ -484,7 +500,7 @@ def copies(rep, prog):
         rep.check(st.get('%s._key' % root) == 'copy.copy(%s._key)' % me, 'C14.4', 'PGPKey.__copy__',
                   'key packet: %s' % {k: v for k, v in st.items() if k.endswith('._key')}, 'a copy has its own copy of the key packet', where=f.where,
                   expected='<copy>._key = copy.copy(self._key)')
-        cols = _copy_loops(recs, me, root)
+        cols = _copy_loops(recs, me, root, mappings)
         for attr, what in (('_uids', 'every user id and attribute'), ('_children', 'every subkey'), ('_signatures', 'every signature')):
             rep.check(attr in cols and cols[attr][0], 'C14.4', 'PGPKey.__copy__', '%s copied: %s' % (attr, attr in cols), 'a copy carries %s' % what, where=f.where,
                       expected='for x in self.%s: copy |= copy.copy(x)' % attr, found=sorted(cols))
